@@ -31,7 +31,7 @@ Proof. destruct l; cbn; split; congruence. Qed.
 (* ------------------------------------------------------------------ the finite lattice *)
 Lemma all_configs_complete c : In c all_configs.
 Proof.
-  destruct c as [a b c d e f g h i j k]. unfold all_configs.
+  destruct c as [a b c d e f g h i j k l]. unfold all_configs.
   assert (Hb : forall x : bool, In x bools) by (intros []; cbn; auto).
   repeat (apply in_flat_map; eexists; split; [apply Hb|]).
   apply in_map_iff. eexists; split; [reflexivity | apply Hb].
@@ -50,11 +50,11 @@ Definition lattice_point_ok (c : config) : bool :=
       && match route_of_pat c pk s with Some r' => rid_beq r r' | None => false end)
     (registered c pk)) bools.
 
-(* the whole lattice, 2^11 = 2048 configurations x 2, by computation *)
+(* the whole lattice, 2^12 = 4096 configurations x 2, by computation *)
 Lemma lattice_all_ok : forallb lattice_point_ok all_configs = true.
 Proof. vm_compute. reflexivity. Qed.
 
-Lemma lattice_size : N.of_nat (length all_configs) = 2048.
+Lemma lattice_size : N.of_nat (length all_configs) = 4096.
 Proof. vm_compute. reflexivity. Qed.
 
 Lemma pattern_names_route c pk r :
@@ -129,8 +129,9 @@ Proof.
   destruct i as [c a x q]. unfold spec_ok, model, serve, serve_gen.
   destruct (auth_outcome a) as [|s0] eqn:Ea; [reflexivity|].
   destruct (parse_path (q_path q)) as [[ss tr]|].
-  2:{ destruct (is_options (q_meth q)); reflexivity. }
+  2:{ destruct (is_options (q_meth q)); [reflexivity|]. destruct (pre413 c q); reflexivity. }
   destruct (is_options (q_meth q)) eqn:Eo; [reflexivity|].
+  destruct (pre413 c q) eqn:E4; [reflexivity|].
   destruct (dispatch c (pkce_on c a) (q_meth q) ss tr) as [r| |] eqn:Ed; [|reflexivity|reflexivity].
   apply dispatch_registered in Ed. destruct (pattern_names_route _ _ _ Ed) as [Hne Hrt].
   fold (run_route c a x r ss q). destruct (run_route c a x r ss q) as [[st w] cs] eqn:Er.
@@ -150,6 +151,7 @@ Lemma rejected_request c a x q r st :
 Proof.
   intros Ea Hr Hg. unfold routed in Hr. unfold serve, serve_gen.
   destruct (is_options (q_meth q)); [discriminate|].
+  destruct (pre413 c q); [discriminate|].
   destruct (parse_path (q_path q)) as [[ss tr]|]; [|discriminate].
   destruct (dispatch c (pkce_on c a) (q_meth q) ss tr) as [r'| |]; try discriminate.
   inversion Hr. subst r'. fold (run_route c a x r ss q).
@@ -165,6 +167,7 @@ Lemma context_irrelevant c a x x' q r st :
 Proof.
   intros Ea Hr Hg. unfold routed in Hr. unfold serve, serve_gen.
   destruct (is_options (q_meth q)); [discriminate|].
+  destruct (pre413 c q); [discriminate|].
   destruct (parse_path (q_path q)) as [[ss tr]|]; [|discriminate].
   destruct (dispatch c (pkce_on c a) (q_meth q) ss tr) as [r'| |]; try discriminate.
   inversion Hr. subst r'. fold (run_route c a x r ss q). fold (run_route c a x' r ss q).
@@ -174,6 +177,7 @@ Qed.
 Lemma routed_registered c a q r : routed c a q = Some r -> In r (registered c (pkce_on c a)).
 Proof.
   unfold routed. destruct (is_options (q_meth q)); [discriminate|].
+  destruct (pre413 c q); [discriminate|].
   destruct (parse_path (q_path q)) as [[ss tr]|]; [|discriminate].
   destruct (dispatch c (pkce_on c a) (q_meth q) ss tr) eqn:Ed; try discriminate.
   intro H. inversion H. subst. eapply dispatch_registered; eauto.
@@ -208,7 +212,8 @@ Lemma unauthenticated_reach c a x q st :
   (o_work o = [] /\ o_status o = st /\ o_consulted o = true)
   \/ (q_meth q = M_OPTIONS /\ o_status o = 204 /\ o_work o = [] /\ o_consulted o = false)
   \/ (q_meth q <> M_OPTIONS /\ routed c a q = None /\ o_work o = [] /\ o_consulted o = false
-      /\ In (o_status o) [redirect_status; 404; 405])
+      /\ In (o_status o) [redirect_status; 404; 405; 413]
+      /\ (o_status o = 413 <-> pre413 c q = true))
   \/ (exists r, routed c a q = Some r /\ In r (registered c (pkce_on c a))
         /\ auth_required c (pkce_on c a) r = false
         /\ (class_open (route_class r) = true \/ disabled_stub c r)
@@ -225,20 +230,59 @@ Proof.
       * right. right. right. exists r. pose proof (routed_registered _ _ _ _ Er) as Hin.
         repeat split; auto. { now apply ungated_open with (pk := pkce_on c a). }
         revert Er. unfold routed, serve, serve_gen. rewrite Eo.
+        destruct (pre413 c q); [discriminate|].
         destruct (parse_path (q_path q)) as [[ss tr]|]; [|discriminate].
         destruct (dispatch c (pkce_on c a) (q_meth q) ss tr) as [r'| |]; try discriminate.
         intro H. inversion H. subst r'. fold (run_route c a x r ss q).
         destruct (run_route c a x r ss q) as [[s1 w1] c1] eqn:Err. cbn [o_work].
         apply wsubset_In. eapply open_route_work; eauto.
     + right. right. left. revert Er. unfold routed, serve, serve_gen. rewrite Eo.
-      destruct (parse_path (q_path q)) as [[ss tr]|].
-      * destruct (dispatch c (pkce_on c a) (q_meth q) ss tr); try discriminate; cbn; intuition.
-      * cbn. intuition.
+      assert (R307 : redirect_status <> 413) by (vm_compute; discriminate).
+      destruct (pre413 c q) eqn:E4.
+      * intros _. destruct (parse_path (q_path q)) as [[ss tr]|]; cbn; intuition.
+      * destruct (parse_path (q_path q)) as [[ss tr]|].
+        -- destruct (dispatch c (pkce_on c a) (q_meth q) ss tr); try discriminate; cbn;
+             intuition; try discriminate.
+        -- cbn. intuition; try discriminate.
+Qed.
+
+(* the request-cap fast path: whatever the route, the authenticator and the
+   configuration of the upload-URL provider, an over-cap request gets 413 and
+   NOTHING runs - in particular the provider does not and no URL is vended *)
+Lemma pre_dispatch_413 c a x q :
+  q_meth q <> M_OPTIONS -> pre413 c q = true ->
+  o_status (serve c a x q) = 413 /\ o_work (serve c a x q) = [] /\ o_consulted (serve c a x q) = false.
+Proof.
+  intros Hm E4. unfold serve, serve_gen. rewrite E4.
+  assert (Eo : is_options (q_meth q) = false).
+  { destruct (is_options (q_meth q)) eqn:E; [apply is_options_true in E; congruence | reflexivity]. }
+  rewrite Eo. destruct (parse_path (q_path q)) as [[ss tr]|]; cbn; auto.
+Qed.
+
+(* no response of any kind carries a vended URL or provider work for a rejected caller *)
+Lemma rejected_never_vended c a x q st :
+  auth_outcome a = AR_rej st ->
+  ~ In W_vend (o_work (serve c a x q)) /\ ~ In W_provider (o_work (serve c a x q)).
+Proof.
+  intro Ea. pose proof (spec_ok_model (Probe c a x q)) as H. unfold spec_ok, model in H. rewrite Ea in H.
+  assert (K : forall l, is_nil l = true -> ~ In W_vend l /\ ~ In W_provider l)
+    by (intros l Hl; apply is_nil_true in Hl; subst; cbn; tauto).
+  destruct (is_options (q_meth q)).
+  { apply andb_true_iff in H. destruct H as [H _]. apply andb_true_iff in H. destruct H as [_ H]. now apply K. }
+  destruct (pre413 c q).
+  { apply andb_true_iff in H. destruct H as [H _]. apply andb_true_iff in H. destruct H as [_ H]. now apply K. }
+  destruct (o_pat (serve c a x q)) as [|b s].
+  { apply andb_true_iff in H. destruct H as [H _]. now apply K. }
+  destruct (route_of_pat c (pkce_on c a) (b :: s)) as [r|]; [|discriminate].
+  destruct (auth_required c (pkce_on c a) r).
+  - apply andb_true_iff in H. destruct H as [H _]. apply andb_true_iff in H. destruct H as [H _].
+    apply andb_true_iff in H. destruct H as [_ H]. now apply K.
+  - rewrite wsubset_In in H. split; intro Hin; apply H in Hin; destruct r; cbn in Hin; intuition discriminate.
 Qed.
 
 (* every open class is really reachable by a rejected caller: a witness per class *)
 Definition rq (m : meth) (p : bytes) : request :=
-  {| q_meth := m; q_path := p; q_ctype := CT_none; q_body := B_none; q_sess := S_none; q_html := false |}.
+  {| q_meth := m; q_path := p; q_ctype := CT_none; q_body := B_none; q_sess := S_none; q_html := false; q_big := false |}.
 Definition class_witness (k : rclass) : request :=
   match k with
   | RC_health => rq M_GET (str "/health")
@@ -291,7 +335,7 @@ Proof. reflexivity. Qed.
 Definition legacy_witness : input :=
   Probe (cfgm 2047) A_fail CX_nil
     {| q_meth := M_POST; q_path := str "/vgi/__upload_url__/init"; q_ctype := CT_arrow;
-       q_body := B_req c22_upload_seg; q_sess := S_none; q_html := false |}.
+       q_body := B_req c22_upload_seg; q_sess := S_none; q_html := false; q_big := false |}.
 
 Lemma legacy_refuted :
   exists c a q, rejecting a = true /\ routed c a q = Some R_upload
@@ -302,6 +346,6 @@ Lemma legacy_refuted :
 Proof.
   exists (cfgm 2047), A_fail,
     {| q_meth := M_POST; q_path := str "/vgi/__upload_url__/init"; q_ctype := CT_arrow;
-       q_body := B_req c22_upload_seg; q_sess := S_none; q_html := false |}.
+       q_body := B_req c22_upload_seg; q_sess := S_none; q_html := false; q_big := false |}.
   vm_compute. repeat split; auto.
 Qed.
